@@ -95,6 +95,7 @@ func cmdCheck(args []string) int {
 	keep := fs.String("keep", "", "directory to keep SMT files in (default: temp, removed)")
 	timeout := fs.Int("timeout", 0, "per-solver timeout in seconds (default quick 20, thorough 60)")
 	verbose := fs.Bool("v", false, "verbose")
+	obRe := fs.String("ob", "", "debugging: only obligations whose name matches this regexp (never used by ./check)")
 	fs.BoolVar(&debugSplit, "split", false, "debugging: split postconditions into their top-level conjuncts")
 	fs.Parse(args)
 	t0 := time.Now()
@@ -224,6 +225,16 @@ func cmdCheck(args []string) int {
 			}
 			obls = append(obls, o)
 		}
+	}
+	if *obRe != "" {
+		ore := regexp.MustCompile(*obRe)
+		var f []*Obligation
+		for _, o := range obls {
+			if ore.MatchString(o.Name) {
+				f = append(f, o)
+			}
+		}
+		obls = f
 	}
 	tGen := time.Since(t0).Seconds() - tLoad
 	dir := *keep
